@@ -115,6 +115,7 @@ let dispatch (fn : string) (copy : string) (a : arg list) : out list res =
   | ("poly_sub" | "poly_sub_ip"), [x; y] -> poly_sub (getl x) (getl y) >>= fun r -> ret [ol r]
   | "poly_shiftl", [x] -> poly_shiftl (getl x) >>= fun r -> ret [ol r]
   | "poly_pointwise", [x; y] -> poly_pointwise_montgomery (getl x) (getl y) >>= fun r -> ret [ol r]
+  | "poly_pointwise_dirty", [x; y; _] -> poly_pointwise_montgomery (getl x) (getl y) >>= fun r -> ret [ol r]
   | "poly_power2round", [x] -> poly_power2round (getl x) >>= fun (a1, a0) -> ret [ol a1; ol a0]
   | "chknorm", [x; b] -> chknorm (getl x) (geti b) >>= fun r -> ret [oi r]
   | "rej_uniform", [x; alen; buf; buflen] ->
